@@ -251,6 +251,15 @@ theorem C18_idempotent (tx : Tx) :
 theorem C18_isSorted_iff_fixed (tx : Tx) : IsSorted tx = true ↔ SortTx tx = tx :=
   ⟨(C18_idempotent tx).2.2, fun h => h ▸ (C18_idempotent tx).1⟩
 
+/-- **C18_nondestructive / in place.** `Sort` leaves the caller's transaction as it was and returns the sorted copy;
+    `InPlaceSort` leaves the caller with exactly that copy; doing either again changes nothing. (Which *arrays* the two
+    functions write is outside this value-level model: the harness overwrites every byte of the returned copy and
+    compares the caller's serialisation before and after, and compares both results by their full serialisation.) -/
+theorem C18_nondestructive_inplace (tx : Tx) :
+    (sortCopy tx).1 = tx ∧ (sortCopy tx).2 = SortTx tx ∧ InPlaceSort tx = (sortCopy tx).2 ∧
+    InPlaceSort (InPlaceSort tx) = InPlaceSort tx ∧ IsSorted (InPlaceSort tx) = true :=
+  ⟨rfl, rfl, rfl, (C18_idempotent tx).2.1, (C18_idempotent tx).1⟩
+
 /-! ### non-vacuity: concrete transactions -/
 
 -- last hash byte is most significant; ties keep their order (tags 7, 10); prefix scripts first; negative amounts first
